@@ -125,3 +125,66 @@ pub fn position_deleted(v: &Vec<RecordHeader>) -> (r: Option<usize>)
         None => forall|j: int| 0 <= j < v.len() ==> !hdr_deleted(v@[j]),
     }
 { unimplemented!() }
+
+// ---- record accounting over the whole map (C15) -------------------------------------------
+// sum of the lengths of all version vectors. Uninterpreted, characterised by two ASSUMED
+// mathematical facts about a fold over a finite map (listed in the trusted base).
+pub uninterp spec fn sum_len(m: Map<Seq<u8>, Seq<RecordHeader>>) -> nat;
+#[verifier::external_body]
+pub proof fn axiom_sum_len_empty()
+    ensures sum_len(Map::<Seq<u8>, Seq<RecordHeader>>::empty()) == 0
+{ }
+#[verifier::external_body]
+pub proof fn axiom_sum_len_insert(m: Map<Seq<u8>, Seq<RecordHeader>>, k: Seq<u8>, v: Seq<RecordHeader>)
+    ensures sum_len(m.insert(k, v)) == sum_len(m) - (if m.contains_key(k) { m[k].len() } else { 0 }) + v.len()
+{ }
+
+impl InMemoryIndex {
+    #[verifier::external_body]
+    pub fn new() -> (r: InMemoryIndex) ensures r@ == Map::<Seq<u8>, Seq<RecordHeader>>::empty() { unimplemented!() }
+    // std: BTreeMap::len() == 0 iff the map is empty
+    #[verifier::external_body]
+    pub fn is_len_zero(&self) -> (r: bool) ensures r == (self@ =~= Map::<Seq<u8>, Seq<RecordHeader>>::empty()) { unimplemented!() }
+}
+// `headers.values().fold(0, |acc, v| acc + v.capacity())` — memory statistics only
+#[verifier::external_body]
+pub fn capacity_total(m: &InMemoryIndex) -> (r: usize) ensures r <= usize::MAX - CAP_DELTA_MAX { unimplemented!() }
+
+impl FileIndexStub {
+    // C09 contract of the on-disk index (proved/bounded in units bptree_ser, bptree_read,
+    // bptree_roundtrip; ASSUMED here): the file answers exactly like the map it was built from.
+    pub open spec fn agrees_with(&self, m: Map<Seq<u8>, Seq<RecordHeader>>) -> bool {
+        &&& forall|k: Seq<u8>| #[trigger] self.disk_all(k) == (if m.contains_key(k) { Some(m[k].reverse()) } else { None::<Seq<RecordHeader>> })
+        &&& forall|k: Seq<u8>| #[trigger] self.disk_latest(k) == (if m.contains_key(k) && m[k].len() > 0 { Some(m[k].last()) } else { None::<RecordHeader> })
+        &&& self.disk_count() as nat == sum_len(m)
+    }
+    #[verifier::external_body]
+    pub fn from_records(path: (), io: (), headers: &InMemoryIndex, meta: Vec<u8>, recreate_index_file: bool, blob_size: u64) -> (r: Result<FileIndexStub, VErr>)
+        requires sum_len(headers@) <= usize::MAX
+        ensures r.is_ok() ==> r->Ok_0.agrees_with(headers@)
+    { unimplemented!() }
+    #[verifier::external_body]
+    pub fn get_records_headers(&self, blob_size: u64) -> (r: Result<(InMemoryIndex, usize), VErr>)
+        // the count is the number of headers deserialised from one in-memory buffer, hence far below usize::MAX
+        ensures r.is_ok() ==> self.agrees_with(r->Ok_0.0@) && index_wf(r->Ok_0.0@) && r->Ok_0.1 == self.disk_count() && r->Ok_0.1 < usize::MAX
+    { unimplemented!() }
+    #[verifier::external_body]
+    pub fn file_size(&self) -> (r: u64) { unimplemented!() }
+    #[verifier::external_body]
+    pub fn read_meta(&self) -> (r: Result<BytesMut, VErr>) { unimplemented!() }
+    #[verifier::external_body]
+    pub fn clone(&self) -> (r: FileIndexStub) ensures r == *self { unimplemented!() }
+}
+
+#[verifier::external_body]
+pub struct Bloom { _p: u8 }
+#[verifier::external_body]
+pub struct RangeFilter { _p: u8 }
+impl CombinedFilter {
+    #[verifier::external_body]
+    pub fn new(bloom: Option<Bloom>, range: RangeFilter) -> (r: CombinedFilter) { unimplemented!() }
+    #[verifier::external_body]
+    pub fn clear_filter(&mut self) ensures final(self).keys() == Set::<Seq<u8>>::empty() { unimplemented!() }
+    #[verifier::external_body]
+    pub fn offload_filter(&mut self) -> (r: usize) ensures final(self).keys() == old(self).keys() { unimplemented!() }
+}
